@@ -1,4 +1,6 @@
 """C09 — acknowledged delivery: at-least-once, bounded retries, silent after ack"""
+import json
+
 from .. import gen
 from ..core import obs_of
 from ..rng import Rng
@@ -147,11 +149,24 @@ def run(ctx):
             per_op.setdefault(i, []).append((m, a))
         redel = acks = 0
         failed = False
+        first_content = {}
         for st in res.get("steps", []):
             i = st["op"]
             if i >= len(sc["ops"]) or failed:
                 break
             obs = st["obs"]
+            # a redelivery is the same message: same id, same content as the first delivery
+            for o in obs:
+                if o.get("k") == "dlv" and o.get("chan") == "ackchan":
+                    content = {k: o.get(k) for k in ("pid", "tid", "nid", "mid", "type", "state", "key", "uses", "tag", "name", "inputs", "outputs")}
+                    if o["m"] not in first_content:
+                        first_content[o["m"]] = content
+                    elif content != first_content[o["m"]] and not failed:
+                        diff = [k for k in content if content[k] != first_content[o["m"]][k]]
+                        ctx.violation(f"C09|redelivered-content-differs|{'+'.join(diff)}|{sc['config'].get('store', 'mem')}",
+                                      f"op {i}: message {o['m']} redelivered (retry {o.get('retry')}) with other {diff}: {json.dumps({k: content[k] for k in diff})[:160]} "
+                                      f"vs first {json.dumps({k: first_content[o['m']][k] for k in diff})[:160]}", {"scenario": sc, "op": i})
+                        failed = True
             eng_re = sorted((o["m"], o["retry"]) for o in obs if o.get("k") == "dlv" and o.get("chan") == "ackchan" and o.get("retry", 0) > 0)
             rows = None
             for o in obs:
